@@ -4,11 +4,12 @@ OUT=$1; WT=$2
 cd $WT || exit 2
 git checkout -q -- . ; rm -f tests/seed_demo.rs
 git apply $OUT/patch.diff || { echo "RESULT apply-failed"; exit 1; }
-cargo nextest run --workspace --no-fail-fast --offline --test-threads 8 > $OUT/v_suite.log 2>&1
+# (a commands:: test is known to hang now and then under load on the unchanged tree too: bounded, retried once)
+for try in 1 2; do timeout 300 cargo nextest run --workspace --no-fail-fast --offline --test-threads 8 > $OUT/v_suite.log 2>&1 && break; pkill -P $$ -f cross_stream 2>/dev/null; done
 SUITE=$(grep -E "^\s+Summary" $OUT/v_suite.log | tail -1)
 cp $OUT/demo.rs tests/seed_demo.rs
-cargo nextest run --offline --test seed_demo > $OUT/v_demo_with.log 2>&1; W=$?
+timeout 600 cargo nextest run --offline --test seed_demo > $OUT/v_demo_with.log 2>&1; W=$?
 git checkout -q -- .
-cargo nextest run --offline --test seed_demo > $OUT/v_demo_without.log 2>&1; WO=$?
+timeout 600 cargo nextest run --offline --test seed_demo > $OUT/v_demo_without.log 2>&1; WO=$?
 rm -f tests/seed_demo.rs
 echo "RESULT suite=[$SUITE] demo_with_exit=$W demo_without_exit=$WO"
